@@ -21,7 +21,12 @@ def run(tier, only=None):
     units = [("c16.case", ["-DMODE_CASE", "-DNMAX=%d" % n_case]),
              ("c16.blank", ["-DMODE_BLANK", "-DNMAX=%d" % n_blank]),
              ("c16.comment_crlf", ["-DMODE_COMMENT", "-DNMAX=%d" % n_comment]),
-             ("c16.skip_lines", ["-DMODE_SKIP", "-DNMAX=%d" % n_skip])]
+             ("c16.skip_lines", ["-DMODE_SKIP", "-DNMAX=%d" % n_skip]),
+             # runs of 100+ blanks/tabs at constant positions (before the mnemonic, after the separating blank, both)
+             ("c16.blankrun.lead", ["-DMODE_BLANKRUN", "-DRUN_A=100", "-DRUN_B=0", "-DBR_K=6", "-DNMAX=124"]),
+             ("c16.blankrun.mid", ["-DMODE_BLANKRUN", "-DRUN_A=0", "-DRUN_B=100", "-DBR_K=6", "-DNMAX=124"])]
+    if not quick:
+        units.append(("c16.blankrun.both", ["-DMODE_BLANKRUN", "-DRUN_A=60", "-DRUN_B=60", "-DBR_K=10", "-DNMAX=148"]))
     if only:
         units = [u for u in units if fnmatch.fnmatch(u[0], only)]
 
@@ -41,13 +46,14 @@ def run(tier, only=None):
         return fn
 
     def ujob(u):
-        mode = {"c16.case": "case", "c16.blank": "blank", "c16.comment_crlf": "comment"}.get(u[0])
+        mode = {"c16.case": "case", "c16.blank": "blank", "c16.comment_crlf": "comment"}.get(u[0], "blankrun" if u[0].startswith("c16.blankrun") else None)
         # string-loop bounds follow the line length of the unit (the unwinding assertions check that they suffice)
         nmax = int([d for d in u[1] if d.startswith("-DNMAX=")][0][7:])
         sb = nmax + 12
         return te.unit(u[0], "tok_filter.c", defs=u[1], replace=LTI, unwind=sb, checks="default", timeout=700 if quick else 3000,
                        unwindset={"strstr.0": sb, "strstr.1": sb, "strlen.0": sb, "strchr.0": sb},
-                       replay_fn=confirm(mode) if mode else None)
+                       replay_fn=confirm(mode) if mode else None,
+                       extra_flags=("--object-bits", "10") if mode == "blankrun" else ())
     # one pool: the filter-level units (long) first, then the number-base pairs
     rep.add(core.pmap_mixed([(ujob, u) for u in units] + [(lambda sk: eng.run_family([sk])[0], sk) for sk in sks]))
     return rep.finish(
